@@ -287,7 +287,53 @@ def fam_general(ctx, rng):
                     float(au), float(ai), float(X.area(fa)), float(X.area(fb))), desc)
 
 
-FAMILIES = [(fam_lattice, 220), (fam_lattice_all, 50), (fam_general, 140)]
+def small_poly(rng):
+    for _ in range(40):
+        n = rng.choice([3, 3, 4, 4, 5])
+        pts = [(float(rng.randint(-9, 9)), float(rng.randint(-9, 9))) for _ in range(n)]
+        f = [X.fpt(p) for p in pts]
+        if len(set(pts)) == n and X.is_simple(f) and X.shoelace2(f) != 0 and all(X.orient(f[i - 2], f[i - 1], f[i]) != 0 for i in range(n)):
+            return pts
+    return None
+
+
+def fam_small_general(ctx, rng):
+    """pairs of small polygons (3..5 vertices, integer coordinates in [-9, 9]) in general position: long thin triangles and quads whose
+    edges become neighbours in the sweep only after a short edge between them has ended; every operation, judged at sample points"""
+    la, lb = small_poly(rng), small_poly(rng)
+    if la is None or lb is None:
+        return
+    fa, fb = [X.fpt(p) for p in la], [X.fpt(p) for p in lb]
+    m = Fraction(10 * TOL) ** 2
+    if any(X.sqdist_to_boundary(fb, p) < m for p in fa) or any(X.sqdist_to_boundary(fa, p) < m for p in fb):
+        return
+    if not any(X.segs_intersect(fa[i - 1], fa[i], fb[j - 1], fb[j]) for i in range(len(fa)) for j in range(len(fb))):
+        return
+    a, b = poly(la), poly(lb)
+    pts = []
+    for _ in range(60):
+        pt = (Fraction(G.dy(rng.uniform(-9.5, 9.5), 12)), Fraction(G.dy(rng.uniform(-9.5, 9.5), 12)))
+        if X.sqdist_to_boundary(fa, pt) >= m and X.sqdist_to_boundary(fb, pt) >= m:
+            pts.append((pt, X.winding_inside(fa, pt), X.winding_inside(fb, pt)))
+    ctx.count('small_general', key=(len(la), len(lb)), sample={'a': la, 'b': lb}, nontrivial=True)
+    for op in OPS:
+        desc = {'a': la, 'b': lb, 'op': op}
+        try:
+            res = apply_op(op, a, b)
+        except Exception as e:
+            ctx.violation('small_general.%s:raises' % op, '%r' % (e,), desc); return
+        loops = [[X.fpt(v) for v in p_.vertices] for p_ in res]
+        for pt, ina, inb in pts:
+            exp = {'union': ina or inb, 'intersect': ina and inb, 'difference': ina and not inb, 'xor': ina != inb}[op]
+            rs = [X.winding_inside(lp, pt) for lp in loops]
+            if any(r is None for r in rs):
+                continue
+            if (sum(1 for r in rs if r) % 2 == 1) != bool(exp):
+                ctx.violation('small_general.%s:membership' % op, 'point %s: in A=%s in B=%s but the result says %s' % (
+                    (float(pt[0]), float(pt[1])), ina, inb, not exp), dict(desc, result=[p_.to_array() for p_ in res])); return
+
+
+FAMILIES = [(fam_lattice, 220), (fam_lattice_all, 50), (fam_general, 140), (fam_small_general, 700)]
 
 
 def explore(ctx):
